@@ -48,50 +48,93 @@ theorem runB_append (p : Phase) (s : St) (a b : List Ev) :
 
 theorem runB_nil (p : Phase) (s : St) : runB p s [] = some p := rfl
 
-/-- a failure that names the open test keeps it open and does not touch the writer's state -/
-theorem failure_keeps_open (t : TestInfo) (g : Bytes) (f : Failure) (hf : f.testName = t.name) (es : List Ev) (s : St) :
-    runB (.inTest g t.name) s (.failure f :: es) = runB (.inTest g t.name) s es ∧
-    stAfter s (.failure f :: es) = stAfter s es := by
-  simp [runB, msgsFrom_cons, stAfter_cons, msgsOf, step, balRun, balStep, hf]
+/-- what a running test sends between its start and its end: text (prints, the -vv progress trace)
+    and failures that carry the test's name -/
+def okEv (t : TestInfo) : Ev → Prop
+  | .print _ => True
+  | .veryVerbose _ => True
+  | .failure f => f.testName = t.name
+  | _ => False
 
-/-- the body of a test: prints and failures keep the test open, the writer's state is not touched -/
-theorem acts_keep_open (t : TestInfo) (g : Bytes) : ∀ (acts : List Act) (s : St),
-    runB (.inTest g t.name) s (actEvs t acts) = some (.inTest g t.name) ∧ stAfter s (actEvs t acts) = s
-  | [], s => by simp [actEvs, runB_nil, stAfter_nil]
-  | .print f l x :: as, s => by
-    have ih := acts_keep_open t g as s
-    simp only [actEvs, runB, msgsFrom_cons, stAfter_cons, msgsOf, step, List.cons_append, List.nil_append, balRun, balStep]
-    exact ih
-  | .fail f l m :: as, s => by
-    have h := failure_keeps_open t g _ (locMsgFailure_testName t f l m) (actEvs t as) s
-    rw [actEvs, h.1, h.2]; exact acts_keep_open t g as s
-  | .failMsg m :: as, s => by
-    have h := failure_keeps_open t g _ (msgFailure_testName t m) (actEvs t as) s
-    rw [actEvs, h.1, h.2]; exact acts_keep_open t g as s
-  | .failLoc f l :: as, s => by
-    have h := failure_keeps_open t g _ (locFailure_testName t f l) (actEvs t as) s
-    rw [actEvs, h.1, h.2]; exact acts_keep_open t g as s
-  | .failExit f l m :: _, s => by
-    have h := failure_keeps_open t g _ (exitFailure_testName t f l m) [] s
-    rw [actEvs, h.1, h.2]; exact ⟨rfl, rfl⟩
-  | .postFail _ :: as, s => by simpa [actEvs] using acts_keep_open t g as s
-  | .checks _ :: as, s => by simpa [actEvs] using acts_keep_open t g as s
-  | .tick _ :: as, s => by simpa [actEvs] using acts_keep_open t g as s
+def InnerOK (t : TestInfo) (l : List Ev) : Prop := ∀ e ∈ l, okEv t e
 
-/-- the plugin's post-test failures name the open test as well -/
-theorem post_keep_open (t : TestInfo) (g : Bytes) : ∀ (acts : List Act) (s : St),
-    runB (.inTest g t.name) s (postEvs t acts) = some (.inTest g t.name) ∧ stAfter s (postEvs t acts) = s
-  | [], s => by simp [postEvs, runB_nil, stAfter_nil]
-  | .postFail m :: as, s => by
-    have h := failure_keeps_open t g _ (msgFailure_testName t m) (postEvs t as) s
-    rw [postEvs, h.1, h.2]; exact post_keep_open t g as s
-  | .print _ _ _ :: as, s => by simpa [postEvs] using post_keep_open t g as s
-  | .fail _ _ _ :: as, s => by simpa [postEvs] using post_keep_open t g as s
-  | .failExit _ _ _ :: as, s => by simpa [postEvs] using post_keep_open t g as s
-  | .failMsg _ :: as, s => by simpa [postEvs] using post_keep_open t g as s
-  | .failLoc _ _ :: as, s => by simpa [postEvs] using post_keep_open t g as s
-  | .checks _ :: as, s => by simpa [postEvs] using post_keep_open t g as s
-  | .tick _ :: as, s => by simpa [postEvs] using post_keep_open t g as s
+theorem InnerOK_append {t : TestInfo} {a b : List Ev} (ha : InnerOK t a) (hb : InnerOK t b) : InnerOK t (a ++ b) := by
+  intro e he
+  rcases List.mem_append.mp he with h | h
+  · exact ha e h
+  · exact hb e h
+
+theorem InnerOK_cons {t : TestInfo} {e : Ev} {l : List Ev} (he : okEv t e) (hl : InnerOK t l) : InnerOK t (e :: l) := by
+  intro x hx
+  rcases List.mem_cons.mp hx with h | h
+  · subst h; exact he
+  · exact hl x h
+
+theorem InnerOK_nil (t : TestInfo) : InnerOK t [] := by intro e he; simp at he
+
+theorem InnerOK_acts (t : TestInfo) : ∀ acts, InnerOK t (actEvs t acts)
+  | [] => InnerOK_nil t
+  | .print _ _ _ :: as => InnerOK_cons trivial (InnerOK_acts t as)
+  | .fail f l m :: as => InnerOK_cons (locMsgFailure_testName t f l m) (InnerOK_acts t as)
+  | .failMsg m :: as => InnerOK_cons (msgFailure_testName t m) (InnerOK_acts t as)
+  | .failLoc f l :: as => InnerOK_cons (locFailure_testName t f l) (InnerOK_acts t as)
+  | .failExit f l m :: _ => InnerOK_cons (exitFailure_testName t f l m) (InnerOK_nil t)
+  | .postFail _ :: as => InnerOK_acts t as
+  | .checks _ :: as => InnerOK_acts t as
+  | .tick _ :: as => InnerOK_acts t as
+
+theorem InnerOK_post (t : TestInfo) : ∀ acts, InnerOK t (postEvs t acts)
+  | [] => InnerOK_nil t
+  | .postFail m :: as => InnerOK_cons (msgFailure_testName t m) (InnerOK_post t as)
+  | .print _ _ _ :: as => InnerOK_post t as
+  | .fail _ _ _ :: as => InnerOK_post t as
+  | .failExit _ _ _ :: as => InnerOK_post t as
+  | .failMsg _ :: as => InnerOK_post t as
+  | .failLoc _ _ :: as => InnerOK_post t as
+  | .checks _ :: as => InnerOK_post t as
+  | .tick _ :: as => InnerOK_post t as
+
+theorem InnerOK_trace (t : TestInfo) (acts : List Act) :
+    InnerOK t traceBefore ∧ InnerOK t (traceBetween acts) ∧ InnerOK t traceAfter := by
+  refine ⟨?_, ?_, ?_⟩
+  · intro e he; simp [traceBefore, vv] at he; rcases he with h | h | h | h | h | h | h | h <;> subst h <;> trivial
+  · intro e he
+    unfold traceBetween at he
+    split at he <;> simp [vv] at he
+    · rcases he with h | h | h | h | h | h <;> subst h <;> trivial
+    · rcases he with h | h | h | h | h | h | h <;> subst h <;> trivial
+  · intro e he; simp [traceAfter, vv] at he; subst he; trivial
+
+theorem InnerOK_testInner (t : TestInfo) (acts : List Act) : InnerOK t (testInner t acts) := by
+  obtain ⟨h1, h2, h3⟩ := InnerOK_trace t acts
+  exact InnerOK_append h1 (InnerOK_append (InnerOK_acts t acts) (InnerOK_append h2 (InnerOK_append (InnerOK_post t acts) h3)))
+
+/-- such events keep the test open and do not touch the writer's state -/
+theorem inner_keeps_open (t : TestInfo) (g : Bytes) : ∀ (l : List Ev) (s : St), InnerOK t l →
+    runB (.inTest g t.name) s l = some (.inTest g t.name) ∧ stAfter s l = s
+  | [], s, _ => ⟨rfl, rfl⟩
+  | e :: es, s, h => by
+    have he : okEv t e := h e (List.mem_cons_self ..)
+    have ih := inner_keeps_open t g es s (fun x hx => h x (List.mem_cons_of_mem _ hx))
+    cases e with
+    | print x =>
+      simp only [runB, msgsFrom_cons, stAfter_cons, msgsOf, step, List.cons_append, List.nil_append, balRun, balStep]
+      exact ih
+    | veryVerbose x =>
+      cases hv : s.veryVerbose <;>
+        simp only [runB, msgsFrom_cons, stAfter_cons, msgsOf, step, hv, Bool.false_eq_true, if_false, if_true,
+          List.cons_append, List.nil_append, balRun, balStep] <;> exact ih
+    | failure f =>
+      have hf : f.testName = t.name := he
+      simp only [runB, msgsFrom_cons, stAfter_cons, msgsOf, step, List.cons_append, List.nil_append, balRun, balStep, hf,
+        if_true]
+      exact ih
+    | testsStarted => exact absurd he (by simp [okEv])
+    | groupStarted _ => exact absurd he (by simp [okEv])
+    | testStarted _ => exact absurd he (by simp [okEv])
+    | testEnded _ _ => exact absurd he (by simp [okEv])
+    | groupEnded _ => exact absurd he (by simp [okEv])
+    | testsEnded _ => exact absurd he (by simp [okEv])
 
 /-- one test (started, body, ended) inside an open suite leaves the suite open -/
 theorem test_keeps_suite (sc : Script) (r : R) (s : St) (g : Bytes) (hg : s.currGroup = g) :
@@ -100,22 +143,18 @@ theorem test_keeps_suite (sc : Script) (r : R) (s : St) (g : Bytes) (hg : s.curr
   cases hw : sc.info.willRun
   · simp [runB, msgsFrom_cons, msgsFrom_nil, stAfter_cons, stAfter_nil, msgsOf, step, balRun, balStep, hw, hg]
   · simp only [if_true]
-    have ha := acts_keep_open sc.info g sc.acts { s with currTest := some sc.info.name }
-    have hp := post_keep_open sc.info g sc.acts { s with currTest := some sc.info.name }
+    have ha := inner_keeps_open sc.info g (testInner sc.info sc.acts) { s with currTest := some sc.info.name }
+      (InnerOK_testInner _ _)
+    have h1 : runB (.inSuite g) s [Ev.testStarted sc.info] = some (.inTest g sc.info.name) := by
+      simp [runB, msgsFrom_cons, msgsFrom_nil, msgsOf, hw, balRun, balStep]
+    have h2 : stAfter s [Ev.testStarted sc.info] = { s with currTest := some sc.info.name } := by
+      simp [stAfter_cons, stAfter_nil, step]
     constructor
-    · show runB (.inSuite g) s ([Ev.testStarted sc.info] ++ (actEvs sc.info sc.acts ++ (postEvs sc.info sc.acts ++ [Ev.testEnded _ _]))) = _
-      rw [runB_append]
-      have h1 : runB (.inSuite g) s [Ev.testStarted sc.info] = some (.inTest g sc.info.name) := by
-        simp [runB, msgsFrom_cons, msgsFrom_nil, msgsOf, hw, balRun, balStep]
-      have h2 : stAfter s [Ev.testStarted sc.info] = { s with currTest := some sc.info.name } := by
-        simp [stAfter_cons, stAfter_nil, step]
-      rw [h1, h2, Option.bind_some, runB_append, ha.1, ha.2, Option.bind_some, runB_append, hp.1, hp.2, Option.bind_some]
+    · show runB (.inSuite g) s ([Ev.testStarted sc.info] ++ (testInner sc.info sc.acts ++ [Ev.testEnded _ _])) = _
+      rw [runB_append, h1, h2, Option.bind_some, runB_append, ha.1, ha.2, Option.bind_some]
       simp [runB, msgsFrom_cons, msgsFrom_nil, msgsOf, balRun, balStep]
-    · show (stAfter s ([Ev.testStarted sc.info] ++ (actEvs sc.info sc.acts ++ (postEvs sc.info sc.acts ++ [Ev.testEnded _ _])))).currGroup = g
-      rw [stAfter_append, stAfter_append, stAfter_append]
-      have h2 : stAfter s [Ev.testStarted sc.info] = { s with currTest := some sc.info.name } := by
-        simp [stAfter_cons, stAfter_nil, step]
-      rw [h2, ha.2, hp.2]
+    · show (stAfter s ([Ev.testStarted sc.info] ++ (testInner sc.info sc.acts ++ [Ev.testEnded _ _]))).currGroup = g
+      rw [stAfter_append, stAfter_append, h2, ha.2]
       simp [stAfter_cons, stAfter_nil, step, hg]
 
 theorem body_keeps_suite (flt : Option Filter) (sc : Script) (r : R) (s : St) (g : Bytes) (hg : s.currGroup = g) :
@@ -200,47 +239,32 @@ theorem openAfter_append (a b : List Msg) : ∀ cur,
   | nil => intro cur; rfl
   | cons m a ih => intro cur; cases m <;> simp [openAfter, ih]
 
-theorem failure_in_open (t : TestInfo) (f : Failure) (hf : f.testName = t.name) (es : List Ev) (s : St) :
-    failuresInOpenTest (some t.name) (msgsFrom s (.failure f :: es)) = failuresInOpenTest (some t.name) (msgsFrom s es) ∧
-    openAfter (some t.name) (msgsFrom s (.failure f :: es)) = openAfter (some t.name) (msgsFrom s es) := by
-  simp [msgsFrom_cons, msgsOf, step, failuresInOpenTest, openAfter, hf]
-
-theorem acts_failures_open (t : TestInfo) : ∀ (acts : List Act) (s : St),
-    failuresInOpenTest (some t.name) (msgsFrom s (actEvs t acts)) = true ∧
-    openAfter (some t.name) (msgsFrom s (actEvs t acts)) = some t.name
-  | [], s => by simp [actEvs, msgsFrom_nil, failuresInOpenTest, openAfter]
-  | .print f l x :: as, s => by
-    simpa [actEvs, msgsFrom_cons, msgsOf, step, failuresInOpenTest, openAfter] using acts_failures_open t as s
-  | .fail f l m :: as, s => by
-    have h := failure_in_open t _ (locMsgFailure_testName t f l m) (actEvs t as) s
-    rw [actEvs, h.1, h.2]; exact acts_failures_open t as s
-  | .failMsg m :: as, s => by
-    have h := failure_in_open t _ (msgFailure_testName t m) (actEvs t as) s
-    rw [actEvs, h.1, h.2]; exact acts_failures_open t as s
-  | .failLoc f l :: as, s => by
-    have h := failure_in_open t _ (locFailure_testName t f l) (actEvs t as) s
-    rw [actEvs, h.1, h.2]; exact acts_failures_open t as s
-  | .failExit f l m :: _, s => by
-    have h := failure_in_open t _ (exitFailure_testName t f l m) [] s
-    rw [actEvs, h.1, h.2]; simp [msgsFrom_nil, failuresInOpenTest, openAfter]
-  | .postFail _ :: as, s => by simpa [actEvs] using acts_failures_open t as s
-  | .checks _ :: as, s => by simpa [actEvs] using acts_failures_open t as s
-  | .tick _ :: as, s => by simpa [actEvs] using acts_failures_open t as s
-
-theorem post_failures_open (t : TestInfo) : ∀ (acts : List Act) (s : St),
-    failuresInOpenTest (some t.name) (msgsFrom s (postEvs t acts)) = true ∧
-    openAfter (some t.name) (msgsFrom s (postEvs t acts)) = some t.name
-  | [], s => by simp [postEvs, msgsFrom_nil, failuresInOpenTest, openAfter]
-  | .postFail m :: as, s => by
-    have h := failure_in_open t _ (msgFailure_testName t m) (postEvs t as) s
-    rw [postEvs, h.1, h.2]; exact post_failures_open t as s
-  | .print _ _ _ :: as, s => by simpa [postEvs] using post_failures_open t as s
-  | .fail _ _ _ :: as, s => by simpa [postEvs] using post_failures_open t as s
-  | .failExit _ _ _ :: as, s => by simpa [postEvs] using post_failures_open t as s
-  | .failMsg _ :: as, s => by simpa [postEvs] using post_failures_open t as s
-  | .failLoc _ _ :: as, s => by simpa [postEvs] using post_failures_open t as s
-  | .checks _ :: as, s => by simpa [postEvs] using post_failures_open t as s
-  | .tick _ :: as, s => by simpa [postEvs] using post_failures_open t as s
+theorem inner_failures_open (t : TestInfo) : ∀ (l : List Ev) (s : St), InnerOK t l →
+    failuresInOpenTest (some t.name) (msgsFrom s l) = true ∧ openAfter (some t.name) (msgsFrom s l) = some t.name
+  | [], s, _ => by simp [msgsFrom_nil, failuresInOpenTest, openAfter]
+  | e :: es, s, h => by
+    have he : okEv t e := h e (List.mem_cons_self ..)
+    have hst : stAfter s [e] = s := (inner_keeps_open t [] [e] s (fun x hx => by
+      have : x = e := by simpa using hx
+      subst this; exact he)).2
+    have ih := inner_failures_open t es s (fun x hx => h x (List.mem_cons_of_mem _ hx))
+    have hsplit : msgsFrom s (e :: es) = msgsFrom s [e] ++ msgsFrom s es := by
+      have := msgsFrom_append s [e] es
+      rw [hst] at this; simpa using this
+    rw [hsplit, failuresInOpenTest_append, openAfter_append]
+    cases e with
+    | print x => simpa [msgsFrom_cons, msgsFrom_nil, msgsOf, failuresInOpenTest, openAfter] using ih
+    | veryVerbose x =>
+      cases hv : s.veryVerbose <;> simpa [msgsFrom_cons, msgsFrom_nil, msgsOf, hv, failuresInOpenTest, openAfter] using ih
+    | failure f =>
+      have hf : f.testName = t.name := he
+      simpa [msgsFrom_cons, msgsFrom_nil, msgsOf, failuresInOpenTest, openAfter, hf] using ih
+    | testsStarted => exact absurd he (by simp [okEv])
+    | groupStarted _ => exact absurd he (by simp [okEv])
+    | testStarted _ => exact absurd he (by simp [okEv])
+    | testEnded _ _ => exact absurd he (by simp [okEv])
+    | groupEnded _ => exact absurd he (by simp [okEv])
+    | testsEnded _ => exact absurd he (by simp [okEv])
 
 theorem test_failures_open (sc : Script) (r : R) (s : St) (cur : Option Bytes) :
     failuresInOpenTest cur (msgsFrom s (testEvs sc r)) = true := by
@@ -248,18 +272,17 @@ theorem test_failures_open (sc : Script) (r : R) (s : St) (cur : Option Bytes) :
   cases hw : sc.info.willRun
   · simp [msgsFrom_cons, msgsFrom_nil, msgsOf, step, hw, failuresInOpenTest]
   · simp only [if_true]
-    have ha := acts_failures_open sc.info sc.acts { s with currTest := some sc.info.name }
-    have hst := (acts_keep_open sc.info [] sc.acts { s with currTest := some sc.info.name }).2
-    have hp := post_failures_open sc.info sc.acts { s with currTest := some sc.info.name }
-    have hst2 := (post_keep_open sc.info [] sc.acts { s with currTest := some sc.info.name }).2
-    show failuresInOpenTest cur (msgsFrom s ([Ev.testStarted sc.info] ++ (actEvs sc.info sc.acts ++ (postEvs sc.info sc.acts ++ [Ev.testEnded _ _])))) = _
-    rw [msgsFrom_append, msgsFrom_append, msgsFrom_append]
+    have hok := InnerOK_testInner sc.info sc.acts
+    have ha := inner_failures_open sc.info (testInner sc.info sc.acts) { s with currTest := some sc.info.name } hok
+    have hst := (inner_keeps_open sc.info [] (testInner sc.info sc.acts) { s with currTest := some sc.info.name } hok).2
+    show failuresInOpenTest cur (msgsFrom s ([Ev.testStarted sc.info] ++ (testInner sc.info sc.acts ++ [Ev.testEnded _ _]))) = _
+    rw [msgsFrom_append, msgsFrom_append]
     have h2 : stAfter s [Ev.testStarted sc.info] = { s with currTest := some sc.info.name } := by
       simp [stAfter_cons, stAfter_nil, step]
     have h1 : msgsFrom s [Ev.testStarted sc.info] = [.testStarted sc.info.name] := by
       simp [msgsFrom_cons, msgsFrom_nil, msgsOf, hw]
-    rw [h2, h1, hst, hst2, failuresInOpenTest_append, failuresInOpenTest_append, failuresInOpenTest_append]
-    simp only [failuresInOpenTest, openAfter, ha.1, ha.2, hp.1, hp.2, Bool.true_and]
+    rw [h2, h1, hst, failuresInOpenTest_append, failuresInOpenTest_append]
+    simp only [failuresInOpenTest, openAfter, ha.1, ha.2, Bool.true_and]
     simp [msgsFrom_cons, msgsFrom_nil, msgsOf, failuresInOpenTest]
 
 theorem loop_failures_open (flt : Option Filter) : ∀ (tests : List Script) (gs : Bool) (g0 : Nat) (r : R) (s : St)
